@@ -269,6 +269,10 @@ impl G<'_> {
                     }
                     E::FStr(out)
                 }
+                60..=74 => {
+                    let (l, r) = (self.expr(T::S, d1), self.expr(T::S, d1));
+                    E::Concat(Box::new(l), Box::new(r))
+                }
                 _ => {
                     let (k, v) = (self.k(), self.expr(T::S, d1));
                     E::Host(H_EMIT_S, vec![k, v])
